@@ -262,12 +262,13 @@ def judge(text, impl_out, devs=frozenset()):
 NAMES = ["cnt", "idx", "total", "Flag", "tmpVal", "aRec", "x", "y1", "k_2", "myList", "Buf", "n", "res", "sName", "pos9", "W"]
 BASE_CATS = ["never", "once", "dot_right", "nested", "other_method", "other_case"]
 MORE_CATS = ["dot_left", "call_arg", "in_string", "callee", "for_counter", "indexed_member", "before_decl",
-             "absolute", "trailing", "mixed_unused", "mixed_used"]
+             "absolute", "trailing", "mixed_unused", "mixed_used", "deep_expr", "deep_block", "next_method_name"]
 CATS = BASE_CATS + MORE_CATS
 # what the PROPERTY says (True = some statement mentions the local other than as a member name after a dot)
 MENTIONED = dict(never=False, once=True, dot_right=False, nested=True, other_method=False, other_case=True,
                  dot_left=True, call_arg=True, in_string=False, callee=True, for_counter=True, indexed_member=False,
-                 before_decl=True, absolute=True, trailing=False, mixed_unused=False, mixed_used=True)
+                 before_decl=True, absolute=True, trailing=False, mixed_unused=False, mixed_used=True,
+                 deep_expr=True, deep_block=True, next_method_name=False)
 
 ONCE = ["{v} = 1", "hlp = {v} + 2", "{v}++", "hlp = ({v} * 3) - 1", "hlp = not {v}", "hlp = -{v}", "hlp = arr[{v}]", "{v}[1] = 2",
         "hlp = tInt({v})", "hlp = [{v}, 2]", "hlp = {v} + {v}", "hlp = 'a' & {v}", "hlp = {v} in [1,2]", "{v} = self", "hlp = ob.meth({v}).fld"]
@@ -318,8 +319,14 @@ def wrap(rng, lines, depth, v=None):
 def use_lines(rng, cat, v):
     """statement lines of the own method for local v of category cat (None: impossible, e.g. no letter to flip)"""
     f = lambda pool: rng.choice(pool).format(v=v)
-    if cat in ("never", "other_method", "trailing"):
-        return []
+    if cat in ("never", "other_method", "trailing", "next_method_name"):
+        return []      # next_method_name: the method declared right after this one bears the local's name (gen_program)
+    if cat == "deep_expr":
+        n = rng.choice([31, 40, 64, 130])       # the only mention is the operand deepest in a long left-nested chain
+        op = rng.choice([" + ", " & ", " - "])
+        return ["hlp = " + v + op + op.join(["1"] * n)] if rng.random() < .5 else ["hlp = " + "(" * n + v + " + 1)" * n]
+    if cat == "deep_block":
+        return wrap(rng, [f(ONCE)], rng.choice([12, 16, 20]))
     if cat == "once":
         return [f(ONCE)]
     if cat == "dot_right":
@@ -456,13 +463,22 @@ def gen_program(rng, cats_pool, nm=None, fixed=None, topdecls=True):
                     # the other method declares the same name: the use there is a use of ITS local
                 j = rng.choice(cands)
                 other[j].append((v, rng.choice(ONCE + CALL_ARG).format(v=v)))
+    # method names; the method after one with a `next_method_name` local bears that local's name (in some letter case)
+    mnames = ["Meth%d" % i for i in range(nm)]
+    for i, (cs, ns) in enumerate(zip(per, locs)):
+        for c, v in zip(cs, ns):
+            # (not when the next method declares that name itself: a method named like its OWN local is a different corner,
+            #  on which the tree-level Coq spec - it reads the whole method node, header included - is only used under its guards)
+            if c == "next_method_name" and i + 1 < nm and mnames[i + 1].startswith("Meth") and \
+                    v.lower() not in [x.lower() for x in mnames] and v.lower() not in [x.lower() for x in locs[i + 1]]:
+                mnames[i + 1] = rng.choice([v, v.upper(), v.capitalize()])
     if topdecls and rng.random() < .6:
         p.items.append(("d", "class aGen%d (aBase)" % rng.randint(1, 9)))
     for i in range(nm):
         if topdecls:
             for _ in range(rng.choice([0, 0, 1, 2])):
                 p.items.append(("d", rng.choice(TOPDECLS).format(n=len(p.items))))
-        name = "Meth%d" % i
+        name = mnames[i]
         mitem, after = gen_method(rng, p, i, name, locs[i], per[i], [u for (_, u) in other[i]])
         # a use of v placed into method j mentions j's own local of that name, if it has one
         for (v, _) in other[i]:
